@@ -9,6 +9,7 @@ from ..core import call_attr, calls_in, dotted, kwarg, norm, slice_parts, text, 
 from . import c09
 
 EXPLANATION = [
+    'C07.byte-order: every field codec of bumble.l2cap (field metadata and struct formats) is little-endian: no single field of a signalling frame or header is byte-swapped.',
     'C07.stale-loopvar: no comprehension or generator expression in bumble.l2cap reads the variable of a `for` loop that has already finished (it would be the last item for every element): table registrations built from a list of channels key each channel by its own identifiers.',
     'C07.cid-alloc: a local channel identifier is allocated by scanning the very table the channel is then inserted into (keyed by own CIDs), whatever identifiers the peer chose (same rule as C09.cid-alloc).',
     'C07.credit-guard: every data frame sent by LeCreditBasedChannel.process_output '
@@ -356,7 +357,13 @@ def stale_loopvar_rule(ctx):
     stale_loopvar(ctx, 'C07.stale-loopvar', ['bumble.l2cap'])
 
 
+def byte_order_rule(ctx):
+    from .. import generic_rules as g
+    g.byte_order(ctx, 'C07.byte-order', ['bumble.l2cap'])
+
+
 RULES = [
+    ('C07.byte-order', byte_order_rule),
     ('C07.stale-loopvar', stale_loopvar_rule),
     ('C07.cid-alloc', cid_alloc),
     ('C07.credit-guard', credit_guard),
